@@ -5,7 +5,7 @@ PROP = {
     "props_module": "FV.Props.C13",
     "generate": [V.generate_locks, V.generate_params],
     "builders": {"rt": V.build_rt},
-    "suites": [("rt", "c01reg", {"quick": 3000, "thorough": 600000}), ("rt", "c13req", {"quick": 60, "thorough": 4000}), ("rt", "c13life", {"quick": 60, "thorough": 1500}), ("rt", "c13http", {"quick": 120, "thorough": 8000})],
+    "suites": [("rt", "c01reg", {"quick": 3000, "thorough": 600000}), ("rt", "c13req", {"quick": 60, "thorough": 4000}), ("rt", "c13tiny", {"quick": 90, "thorough": 3000}), ("rt", "c13life", {"quick": 60, "thorough": 1500}), ("rt", "c13http", {"quick": 120, "thorough": 8000})],
     "rule": 'c13http: real FHTTPTransport Request/Oneway against an httptest peer that answers in time, stays silent, sends headers late, or sends headers (and half the body) in time and then stalls; c13req: real fAdapterTransport.Request/Oneway with timeouts 20-150 ms against a scripted peer (silent, late by d, blocked write, blocked flush, duplicates, foreign op ids); measured: elapsed <= timeout + allowance, error class, registry size afterwards. c01reg as C01.',
     "trusted": ["harness/locks (go/ast, lexical, no type checker) regenerates FV/Generated/Locks.lean: per function the mutexes it locks, the calls it makes under a lock, re-locks and returns with a lock held; calls through interfaces / function values / other packages are not followed; FBaseProcessorFunction.writeMu is taken to be FBaseProcessor.writeMu", "Modelled, not verified: Go channels (buffered send/receive, select), sync.RWMutex atomicity of Register/Unregister/lookup, goroutine scheduling; one Action = one statement group that is atomic in the code (checked by schedule forcing at the yield point registry.dispatch.presend)"] + ["harness/extract (go/ast) regenerates FV/Generated/Params.lean: dispatch send blocking?, result channel capacities, `go f.send`, deferred Unregister"],
     "level_text": 'PARTIAL by nature (DESIGN §7 C13). Theorems (logical half): while a call waits its timeout arm is enabled in every state; a call that has not returned always has an enabled step of its own; timeout + unregister returns TIMED_OUT in two own steps; success requires a delivered frame; every return path leaves no registration (distinct op ids); `send` runs in its own goroutine and Unregister is deferred (regenerated from source). The real-time bound itself (scheduler latency, timer accuracy, net/http cancellation, nats.go write buffering) is runtime behaviour the model cannot exhibit: it is measured on the real transports by the harness, not proved.',
